@@ -731,6 +731,12 @@ func mkResponse(tag int, total int, status int, cacheControl bool) []byte {
 
 func (h *hist) ridFor(ref string) string {
 	var k int
+	if i := strings.LastIndex(ref, "+k"); i > 0 {
+		// a request ID made up by the caller: "<prefix>+k<n>" stands for <prefix> ":" <the ID of call n>
+		if _, err := fmt.Sscanf(ref[i+1:], "k%d", &k); err == nil && k < len(h.calls) {
+			return ref[:i] + ":" + h.calls[k].RID
+		}
+	}
 	if _, err := fmt.Sscanf(ref, "k%d", &k); err == nil && k < len(h.calls) {
 		return h.calls[k].RID
 	}
@@ -1386,8 +1392,27 @@ func (h *hist) scriptRevokedAgent() {
 	h.opAFetch(ag1, "b0", k2, []string{})
 }
 
+// script 9: backend IDs that contain the character a composite key might be joined with, and a request ID made up by an
+// agent so that "<its backend>:<made-up ID>" reads like "<another backend>:<a real ID>"
+func (h *hist) scriptCraftedIDs() {
+	h.e.api.Reset()
+	h.posts = map[int][]byte{}
+	ag1 := "agent1@example.com"
+	h.opAdd("corp:u", "admin", ag0, us0, []string{"/"}, []string{})
+	h.opAdd("corp", "admin", ag1, "u1@example.com", []string{"/"}, []string{})
+	h.opSeen("corp:u", "live")
+	h.opSeen("corp", "live")
+	h.opUStart(us0, "POST", "/secret", 600, []string{}, false) // stored for corp:u
+	k := h.lastK()
+	h.opAFetch(ag1, "corp", "u+"+k, []string{})
+	h.opARespond(ag1, "corp", "u+"+k, 700, 200, true, []string{})
+	h.opAList(ag0, "corp:u", []string{})
+	h.opAFetch(ag0, "corp:u", k, []string{})
+	h.opARespond(ag0, "corp:u", k, 900, 200, true, []string{})
+}
+
 var scripts = []func(*hist){(*hist).scriptBothWritesFail, (*hist).scriptCronBetween, (*hist).scriptSizes, (*hist).scriptAccessMatrix, (*hist).scriptRouting, (*hist).scriptGetCache, (*hist).scriptRefresh,
-	(*hist).scriptCompletionRetry, (*hist).scriptRevokedAgent}
+	(*hist).scriptCompletionRetry, (*hist).scriptRevokedAgent, (*hist).scriptCraftedIDs}
 
 // concurrentRelay: many requests in flight, all answered by agent posts that overlap in time.  Not replayed
 // on the (sequential) model: every client must get exactly the response posted under its own request ID.
@@ -1460,6 +1485,51 @@ func (e *env) concurrentRelay(rounds, n int) {
 
 // ---------------------------------------------------------------- fixed scenarios
 
+// lateResponse: the authorised agent posts the response 27.2 s after the request was stored (the client waits up to 30 s):
+// the client receives exactly that response, and the agent's post is answered 200.
+func (e *env) lateResponse() {
+	e.api.Reset()
+	b, _ := json.Marshal(map[string]interface{}{"id": "late", "backendUser": "late-agent@example.com", "endUser": "late@example.com", "pathPrefixes": []string{"/"}})
+	e.call("api", "POST", "/api/backends", adminIdent("admin"), nil, b, quick, false)
+	e.api.SetTimeProperty("backendTracker", "late", "LastSeen", time.Now().UnixNano()/1000)
+	type cres struct {
+		r       reply
+		seconds float64
+	}
+	done := make(chan cres, 1)
+	t0 := time.Now()
+	go func() {
+		r := e.call("default", "POST", "/answered-late", ident{User: "late@example.com"}, nil, []byte("x"), 60*time.Second, false)
+		done <- cres{r, time.Since(t0).Seconds()}
+	}()
+	rid := ""
+	for i := 0; i < 1000 && rid == ""; i++ {
+		for _, v := range e.storedRequests() {
+			if v.Backend == "late" {
+				rid = v.ID
+			}
+		}
+		time.Sleep(5 * time.Millisecond)
+	}
+	row := map[string]interface{}{"kind": "late-response", "posted_after_s": 27.2}
+	if rid == "" {
+		row["err"] = "the request was never stored"
+		e.emit(row)
+		return
+	}
+	time.Sleep(time.Until(t0.Add(27200 * time.Millisecond)))
+	resp := mkResponse(77, 900, 200, true)
+	ar := e.call("agent", "POST", "/agent/response", ident{OAuth: "late-agent@example.com"}, agentHdr("late", rid), resp, 10*time.Second, false)
+	row["agent_status"] = ar.Status
+	select {
+	case c := <-done:
+		row["client_status"], row["client_seconds"], row["client_got_the_response"] = c.r.Status, c.seconds, c.r.Header.Get("X-Resp-Tag") == "t77"
+	case <-time.After(20 * time.Second):
+		row["client_status"] = -1
+	}
+	e.emit(row)
+}
+
 // startTimeout: a stored request nobody answers is answered 504 once, after responseWaitTimeout.
 func (e *env) startTimeout(res chan map[string]interface{}) {
 	b, _ := json.Marshal(map[string]interface{}{"id": "tmo", "backendUser": "tmo-agent@example.com", "endUser": "tmo@example.com", "pathPrefixes": []string{"/"}})
@@ -1491,6 +1561,7 @@ func main() {
 	faultP := flag.Float64("faultp", 0.2, "probability that an operation runs with failing API calls")
 	bigP := flag.Float64("bigp", 0.12, "probability of a payload at/above the 1,000,000-byte limits")
 	withTimeout := flag.Bool("timeout504", true, "")
+	withLate := flag.Bool("late", false, "also run the scenario in which the response is posted 27 s after the request")
 	concRounds := flag.Int("conc", 3, "rounds of the concurrent relay scenario")
 	flag.Parse()
 	f, err := os.Create(*outPath)
@@ -1531,6 +1602,9 @@ func main() {
 		case <-time.After(50 * time.Second):
 			e.emit(map[string]interface{}{"kind": "timeout504", "status": -1, "err": "client never answered"})
 		}
+	}
+	if *withLate {
+		e.lateResponse()
 	}
 	e.emit(map[string]interface{}{"kind": "done", "histories": *nh})
 }
